@@ -1,0 +1,29 @@
+//go:build verif
+
+package fasthttp
+
+// Thin exports for the /verif correspondence harness (properties C05, C06).
+
+func VerifRemoveNewLines(b []byte) []byte { return removeNewLines(b) }
+
+func VerifSetNoDefaultDate(h *ResponseHeader, v bool) { h.noDefaultDate = v }
+
+func VerifRequestParsedURI(req *Request) bool { return req.parsedURI }
+
+func VerifNormalizePath(src []byte) []byte { return normalizePath(nil, src) }
+
+func VerifParseRequestCookies(src []byte) [][2][]byte {
+	var out [][2][]byte
+	for _, kv := range parseRequestCookies(nil, src) {
+		out = append(out, [2][]byte{append([]byte(nil), kv.key...), append([]byte(nil), kv.value...)})
+	}
+	return out
+}
+
+func VerifAppendRequestCookieBytes(kvs [][2][]byte) []byte {
+	var a []argsKV
+	for _, kv := range kvs {
+		a = appendArgBytes(a, kv[0], kv[1], argsHasValue)
+	}
+	return appendRequestCookieBytes(nil, a)
+}
